@@ -255,6 +255,15 @@ func ruleValidatorSkip(c *Ctx, r *Report) {
 				r.Exc(key, c.Pos(bs.Pos()), "annotation fields have no schema and are not data")
 				return true
 			}
+			// schema-kind dispatch: `if !child.IsChoice() { continue }` over schema nodes is the
+			// guard-clause form of `if child.IsChoice() { … }`; it selects which schema children
+			// this loop is about, it does not skip data.
+			if blk, ok := pm[bs].(*ast.BlockStmt); ok {
+				if is, ok := pm[blk].(*ast.IfStmt); ok && is.Body == blk && len(blk.List) == 1 && schemaKindCond(info, is.Cond) {
+					r.OK(key, c.Pos(bs.Pos()), "schema-kind dispatch on a schema node: "+types.ExprString(is.Cond))
+					return true
+				}
+			}
 			r.Bad(key, c.Pos(bs.Pos()), name+" skips the rest of a loop iteration without recording an error: the element/key/field it was checking is silently accepted")
 			return true
 		})
@@ -320,4 +329,27 @@ func ruleValidateReach(c *Ctx, r *Report) {
 		r.Check(ok, "reach:validateLeaf[Yenum]→enum-membership", c.Pos(f.Decl.Pos()), "enum membership looked up",
 			"the enumeration/identityref arm of validateLeaf only checks the Go kind (int64): Validate never consults the enum's value map, so an undefined enum value is accepted")
 	}
+}
+
+// schemaKindCond: e is built (with !, &&, ||) only from kind predicates of goyang schema nodes
+// (yang.Entry.IsChoice/IsCase/IsDir/IsLeaf/IsLeafList/IsList/IsContainer) applied to a variable.
+func schemaKindCond(info *types.Info, e ast.Expr) bool {
+	switch x := ast.Unparen(e).(type) {
+	case *ast.UnaryExpr:
+		return x.Op == token.NOT && schemaKindCond(info, x.X)
+	case *ast.BinaryExpr:
+		return (x.Op == token.LAND || x.Op == token.LOR) && schemaKindCond(info, x.X) && schemaKindCond(info, x.Y)
+	case *ast.CallExpr:
+		fn := FullName(Callee(info, x))
+		if !strings.HasPrefix(fn, "github.com/openconfig/goyang/pkg/yang.Entry.Is") || len(x.Args) != 0 {
+			return false
+		}
+		sel, ok := x.Fun.(*ast.SelectorExpr)
+		if !ok {
+			return false
+		}
+		_, isID := ast.Unparen(sel.X).(*ast.Ident)
+		return isID
+	}
+	return false
 }
